@@ -346,6 +346,11 @@ def choice_lattice():
         obs = mk_config("OBS", "int", prompt=None, defaults=[{"v": C("1"), "c": S("M1")}, {"v": C("2"), "c": S("M2")}, {"v": C("3"), "c": S("M3")}, {"v": C("0"), "c": Y}])
         ents.append(obs)
         order.append(["s", "OBS"])
+        # the same observer with a prompt: it is written with the default marker, so loading a tool-written file
+        # has a default-marked entry to resolve whose Kconfig default depends on the selection
+        obsv = mk_config("OBSV", "int", prompt=Y, defaults=[{"v": C("1"), "c": S("M1")}, {"v": C("2"), "c": S("M2")}, {"v": C("3"), "c": S("M3")}, {"v": C("0"), "c": Y}])
+        ents.append(obsv)
+        order.append(["s", "OBSV"])
         out.append({"prog": ents, "ord": order, "vars": vars_, "family": "F-choice", "point": dict(members=list(pat), defaults=dflt, cprompt=cprompt, dep=dep, named=named, nested=nested)})
     return out
 
